@@ -575,6 +575,85 @@ def scanner_index_rule(chk: Check, eng: Engine, rule: str) -> None:
                         scanners[r.fq] = i
     if not scanners:
         raise AnalysisError("parse_next_remote_packet: no fragment scanner (a helper called with get_received_msgs() that returns a pair) found")
+    # the list handed to the scanner must itself have the positions of the receive buffer: every return of get_received_msgs is the whole buffer
+    # (a copy is fine, a filtered or sliced list is another index domain)
+    io_cls = eng.cls("fandango.io", "FandangoIO")
+    grm = io_cls.lookup("get_received_msgs")
+    if grm is None:
+        raise AnalysisError("FandangoIO.get_received_msgs not found")
+
+    def whole_buffer(e: ast.AST, depth: int = 0) -> bool:
+        if self_attr(e) == "receive":
+            return True
+        if isinstance(e, ast.Call) and isinstance(e.func, ast.Name) and e.func.id in ("list", "tuple") and len(e.args) == 1 and not e.keywords:
+            return whole_buffer(e.args[0], depth)
+        if isinstance(e, ast.Call) and isinstance(e.func, ast.Attribute) and e.func.attr == "copy" and not e.args:
+            return whole_buffer(e.func.value, depth)
+        if isinstance(e, ast.Call) and call_name(e) in ("copy", "deepcopy") and len(e.args) == 1:
+            return whole_buffer(e.args[0], depth)
+        if isinstance(e, ast.Subscript) and isinstance(e.slice, ast.Slice) and e.slice.lower is None and e.slice.upper is None and e.slice.step is None:
+            return whole_buffer(e.value, depth)
+        if isinstance(e, ast.ListComp) and len(e.generators) == 1 and not e.generators[0].ifs and whole_buffer(e.generators[0].iter, depth):
+            return True  # one element per position, whatever the element is
+        if isinstance(e, ast.Name) and depth < 3:
+            ds = [a.value for a in walk_local(grm.node) if isinstance(a, ast.Assign) and any(isinstance(t, ast.Name) and t.id == e.id for t in a.targets)]
+            return bool(ds) and all(whole_buffer(d, depth + 1) for d in ds)
+        return False
+
+    rets = [r for r in walk_local(grm.node) if isinstance(r, ast.Return)]
+    if not rets:
+        raise AnalysisError("FandangoIO.get_received_msgs has no return statement")
+    # returns that the scanner's call sites cannot reach: with no argument passed, a parameter whose default is None is None
+    site_calls = [a for c in walk_local(pnr.node) if isinstance(c, ast.Call) for a in list(c.args) + [k.value for k in c.keywords]
+                  if isinstance(a, ast.Call) and call_name(a) == "get_received_msgs"]
+    none_params: set[str] = set()
+    if site_calls and all(not a.args and not a.keywords for a in site_calls):
+        args_ = grm.node.args  # type: ignore[attr-defined]
+        pos = args_.args[len(args_.args) - len(args_.defaults):]
+        none_params = {a.arg for a, d in zip(pos, args_.defaults) if isinstance(d, ast.Constant) and d.value is None}
+        none_params |= {a.arg for a, d in zip(args_.kwonlyargs, args_.kw_defaults) if isinstance(d, ast.Constant) and d.value is None}
+        none_params -= {t.id for x in walk_local(grm.node) for t in ast.walk(x) if isinstance(t, ast.Name) and isinstance(t.ctx, ast.Store)}
+
+    def none_test(t: ast.AST) -> Optional[bool]:
+        """True: t holds when the parameter is None; False: t fails then; None: unknown"""
+        if isinstance(t, ast.Compare) and len(t.ops) == 1 and isinstance(t.left, ast.Name) and t.left.id in none_params \
+                and isinstance(t.comparators[0], ast.Constant) and t.comparators[0].value is None:
+            return True if isinstance(t.ops[0], ast.Is) else False if isinstance(t.ops[0], ast.IsNot) else None
+        if isinstance(t, ast.Name) and t.id in none_params:
+            return False
+        if isinstance(t, ast.UnaryOp) and isinstance(t.op, ast.Not) and isinstance(t.operand, ast.Name) and t.operand.id in none_params:
+            return True
+        return None
+
+    gpm = parents_map(grm.node)
+
+    def unreachable_for_sites(r: ast.Return) -> bool:
+        child: ast.AST = r
+        for a in ancestors(gpm, r):
+            if isinstance(a, ast.If):
+                nt = none_test(a.test)
+                in_body = any(child is b for b in a.body)
+                if (nt is False and in_body) or (nt is True and not in_body and any(child is b for b in a.orelse)):
+                    return True
+            for fld in ("body", "orelse", "finalbody"):
+                blk = getattr(a, fld, None)
+                if isinstance(blk, list) and any(child is st for st in blk):
+                    for st in blk[: [i for i, x in enumerate(blk) if x is child][0]]:
+                        if isinstance(st, ast.If) and none_test(st.test) is True and st.body and isinstance(st.body[-1], (ast.Return, ast.Raise)):
+                            return True
+            child = a
+        return False
+
+    for r in rets:
+        if unreachable_for_sites(r):
+            chk.ok(rule, grm.fq, r.lineno, f"`{short(r, 60)}`: not taken for the scanner's calls (they pass no argument)")
+            continue
+        if r.value is not None and whole_buffer(r.value):
+            chk.ok(rule, grm.fq, r.lineno, f"`{short(r, 60)}`: the scanner is given the receive buffer position by position")
+        else:
+            chk.bad(rule, eng.relfile(grm), r.lineno, grm.fq, f"`{short(r, 70)}` hands the fragment scanner a list that is not the receive buffer position by position",
+                    "positions found in a filtered or sliced list are handed to clear_by_party(), which compares them with positions of the buffer itself: with interleaved "
+                    "fragments of two remote parties part of a delivered message stays in the buffer and is delivered again as that party's next message", keyparts="buffer-view-domain")
     for fq, pos in sorted(scanners.items()):
         f = next(g for g in eng.ix.all_functions if g.fq == fq)
         params = f.params()
@@ -649,6 +728,7 @@ MUTANTS = [
     M("sender-not-compared", "src/fandango/io/navigation/packetforecaster.py", "                        and r_msg.sender == orig_r_msg.sender\n", "", "R20-h"),
     M("scanner-indexes-the-filtered-list", "src/fandango/io/packetparser.py", "    for idx in range(start_idx, len(messages)):\n        sender, recipient, msg_fragment = messages[idx]\n        if sender == role_sender:\n            return idx, msg_fragment\n",
       "    fragments = [m for s, _, m in messages if s == role_sender]\n    if start_idx < len(fragments):\n        return start_idx, fragments[start_idx]\n", "R20-g"),
+    M("scanner-is-given-one-party's-fragments", _IO, "        with self.receive_lock:\n            return list(self.receive)", "        with self.receive_lock:\n            return [entry for entry in self.receive if entry[0] != \"\"]", "R20-g"),
     M("scanner-enumerates-the-tail-from-zero", "src/fandango/io/packetparser.py", "    for idx in range(start_idx, len(messages)):\n        sender, recipient, msg_fragment = messages[idx]\n        if sender == role_sender:\n",
       "    for idx, (sender, recipient, msg_fragment) in enumerate(messages[start_idx:]):\n        if sender == role_sender:\n", "R20-g"),
     M("history-not-sealed", "src/fandango/evolution/population.py", "        tree.set_all_read_only(True)\n        dummy = DerivationTree(NonTerminal(\"<hookin>\"))\n", "        dummy = DerivationTree(NonTerminal(\"<hookin>\"))\n", "R20-e"),
@@ -672,5 +752,7 @@ TWINS = [
       "    for idx, (sender, recipient, msg_fragment) in enumerate(messages[start_idx:], start_idx):\n        if sender == role_sender:\n", None),
     M("twin-longest-parse-by-max", "src/fandango/io/packetparser.py", "    max_parse_idx = -1\n    best_parse_tree = None\n    best_non_terminal = None\n    for non_terminal, (parse_idx, parse_tree) in complete_parses.items():\n        if max_parse_idx < parse_idx:\n            max_parse_idx = parse_idx\n            best_parse_tree = parse_tree\n            best_non_terminal = non_terminal\n\n    assert best_non_terminal is not None\n",
       "    best_non_terminal, (max_parse_idx, best_parse_tree) = max(\n        complete_parses.items(), key=lambda entry: entry[1][0]\n    )\n", None),
+    M("twin-optional-party-filter-the-scanner-does-not-use", _IO, "    def get_received_msgs(self) -> list[tuple[str, str, str | bytes]]:\n        \"\"\"Returns a list of all received messages from external parties.\"\"\"\n        with self.receive_lock:\n            return list(self.receive)",
+      "    def get_received_msgs(self, sender: Optional[str] = None) -> list[tuple[str, str, str | bytes]]:\n        \"\"\"Returns a list of all received messages from external parties.\"\"\"\n        with self.receive_lock:\n            if sender is None:\n                return list(self.receive)\n            return [entry for entry in self.receive if entry[0] == sender]", None),
     M("twin-lock-alias", _IO, "        with self.receive_lock:\n            return list(self.receive)", "        with self.receive_lock:\n            snapshot = list(self.receive)\n            return snapshot", None),
 ]
